@@ -100,7 +100,21 @@ impl AssetExpr {
 #[derive(Serialize, Deserialize, Debug, Clone, PartialEq, Eq)]
 pub struct AdHocDirective {
     pub name: String,
+    #[serde(serialize_with = "serialize_in_key_order")]
     pub data: HashMap<String, Expression>,
+}
+
+// hash maps iterate in a per-instance random order: serialize the fields of a
+// directive sorted by name so that the encoding of a template is reproducible
+fn serialize_in_key_order<S>(
+    data: &HashMap<String, Expression>,
+    serializer: S,
+) -> Result<S::Ok, S::Error>
+where
+    S: serde::Serializer,
+{
+    let ordered: std::collections::BTreeMap<&String, &Expression> = data.iter().collect();
+    ordered.serialize(serializer)
 }
 
 #[derive(Serialize, Deserialize, Debug, Clone, PartialEq, Eq)]
